@@ -51,6 +51,7 @@ var (
 	c12cancel      = core.RegCounter("c12.cancelling_pairs_in_batch")
 	c12kpUnchanged = core.RegCounter("c12.keypair_marshal_unchanged_after_signing")
 	c12modelDec    = core.RegCounter("c12.model_verify_decisions_compared")
+	c12wrongLen    = core.RegCounter("c12.wrong_length_encodings_offered_to_decoders")
 )
 
 var c12altKinds = []string{"sig-bit", "marker-cleared", "s-plus-L", "R-negated", "R-top-bit", "R-swapped", "sig-truncated", "sig-extended", "other-context", "other-message", "other-key", "pk-bit", "pk-non-canonical", "s-plus-delta"}
@@ -370,6 +371,44 @@ func runC12(e *Env, r *core.Run) {
 			return
 		}
 		nontrivial = true
+	}
+
+	// wrong lengths: each of the four encodings must be refused when truncated or extended
+	{
+		nontrivial = true
+		enc := [][]byte{pkb, skb, kpb, mustMarshal((&sr25519.MiniSecretKey{}).MarshalBinary())}
+		names := []string{"PublicKey", "SecretKey", "KeyPair", "MiniSecretKey"}
+		which := t.W(4)
+		b := clone(enc[which])
+		if t.W(2) == 0 {
+			b = b[:t.W(len(b))]
+		} else {
+			b = append(b, g.Bytes(1+t.W(len(b)))...)
+			if t.W(2) == 1 {
+				b = append(clone(enc[which]), enc[which]...) // the artifact twice (a duplicated write)
+			}
+		}
+		var err error
+		switch which {
+		case 0:
+			_, err = sr25519.NewPublicKeyFromBytes(b)
+			if err == nil {
+				var pk sr25519.PublicKey
+				err = pk.UnmarshalBinary(b)
+			}
+		case 1:
+			_, err = sr25519.NewSecretKeyFromBytes(b)
+		case 2:
+			_, err = sr25519.NewKeyPairFromBytes(b)
+		default:
+			_, err = sr25519.NewMiniSecretKeyFromBytes(b)
+		}
+		r.Count(c12wrongLen)
+		r.Ev("wrong length: %s of %d bytes -> err=%v", names[which], len(b), err != nil)
+		if err == nil {
+			r.Fail("encoding", "decoder-accepted-wrong-length-"+names[which], "%s decoding accepted %d bytes (the encoding is %d bytes)", names[which], len(b), len(enc[which]))
+			return
+		}
 	}
 
 	// ---------------- signing requests ----------------
